@@ -72,8 +72,8 @@ func sectorOf(seed uint64) (*[rhp2.SectorSize]byte, types.Hash256) {
 }
 
 // doFormV1 forms a v1 contract the way rhp2 does (both payouts to the host wallet).
-func (w *world) doFormV1(tr *vhlib.Trace, dur uint64) {
-	op := fmt.Sprintf("formv1 dur=%d", dur)
+func (w *world) doFormV1(tr *vhlib.Trace, dur uint64, risk bool, nopool bool) {
+	op := fmt.Sprintf("formv1 dur=%d risk=%d nopool=%d", dur, vhlib.B01(risk), vhlib.B01(nopool))
 	if w.dead {
 		return
 	}
@@ -95,7 +95,11 @@ func (w *world) doFormV1(tr *vhlib.Trace, dur uint64) {
 		} else {
 			n.w.SignTransaction(&txn, toSign, types.CoveredFields{WholeTransaction: true})
 			set := append(n.cm.UnconfirmedParents(txn), txn)
-			if _, err := n.cm.AddPoolTransactions(set); err != nil {
+			var perr error
+			if !nopool {
+				_, perr = n.cm.AddPoolTransactions(set)
+			}
+			if perr != nil {
 				n.w.ReleaseInputs(set, nil)
 				res = "poolrej"
 			} else {
@@ -108,6 +112,13 @@ func (w *world) doFormV1(tr *vhlib.Trace, dur uint64) {
 					FileContract: txn.FileContracts[0],
 				}
 				rev.RevisionNumber = 1
+				if risk && len(rev.MissedProofOutputs) == 3 {
+					// collateral at risk: a missed proof costs the host, so it has something to prove for
+					burn := types.Siacoins(2)
+					rev.MissedProofOutputs = append([]types.SiacoinOutput(nil), rev.MissedProofOutputs...)
+					rev.MissedProofOutputs[1].Value = rev.MissedProofOutputs[1].Value.Sub(burn)
+					rev.MissedProofOutputs[2].Value = rev.MissedProofOutputs[2].Value.Add(burn)
+				}
 				h := types.NewHasher()
 				rev.EncodeTo(h.E)
 				sh := h.Sum()
@@ -325,13 +336,14 @@ func genContracts(t *testing.T, tr *vhlib.Trace, r *vhlib.Rand, n int) {
 	w.reset(tr)
 	w.doMine(tr, 8+r.Intn(5), "host", true)
 	w.doMine(tr, 6, "void", true)
-	deep := r.Chance(1, 4) // scenarios in which formations may be disconnected
+	deep := r.Chance(1, 4)   // scenarios in which formations may be disconnected
+	censor := r.Chance(1, 3) // scenarios with blocks that ignore the host's pool
 	form := func() {
 		if net == "v1" {
-			w.doFormV1(tr, uint64(6+r.Intn(8)))
+			w.doFormV1(tr, uint64(6+r.Intn(8)), r.Chance(2, 3), r.Chance(1, 4))
 			return
 		}
-		w.doForm(tr, uint64(8+r.Intn(8)))
+		w.doForm(tr, uint64(8+r.Intn(8)), r.Chance(1, 4))
 		if r.Chance(2, 3) && len(w.cons) > 0 {
 			w.doAppend(tr, len(w.cons)-1)
 		}
@@ -373,6 +385,10 @@ func genContracts(t *testing.T, tr *vhlib.Trace, r *vhlib.Rand, n int) {
 			} else {
 				w.doMine(tr, 1, "void", true)
 			}
+		case x < 46 && censor:
+			// blocks that ignore the host's pool (the contracts they hit are excluded from `ends successful`; the host
+			// then has to rebroadcast, and to expire what it could not prove)
+			w.doMine(tr, 1+r.Intn(3), "void", false)
 		default:
 			// mostly to the host: every lifecycle transaction reserves a wallet output for hours of wall-clock time
 			w.doMine(tr, 1+r.Intn(2), vhlib.Pick(r, "host", "host", "void"), true)
